@@ -25,6 +25,7 @@ import (
 	"verifharness/c18"
 	"verifharness/c19"
 	"verifharness/c20"
+	"verifharness/cms"
 	"verifharness/e2e"
 	"verifharness/hx"
 	"verifharness/pe"
@@ -38,6 +39,7 @@ var handlers = map[string]func([]string) string{
 	"C20": c20.Handle,
 	"PE":  pe.Handle,
 	"E2E": e2e.Handle,
+	"CMS": cms.Handle,
 	"C09": c09.Handle,
 	"C19": c19.Handle,
 }
@@ -103,6 +105,9 @@ func init() {
 	gens["C05"] = []genFunc{forProp("C05", pe.Gen), filtered(c09.Gen, "cksum", "fixpe", "fixpehex", "merkle"), filtered(c19.Gen, "ecdsa", "ecdsasign")}
 	for _, p := range []string{"C01", "C02", "C03", "C08", "C11"} {
 		gens[p] = append(gens[p], forProp(p, pe.Gen))
+		if p == "C02" {
+			gens[p] = append(gens[p], forProp(p, cms.Gen))
+		}
 		if p == "C01" || p == "C02" || p == "C03" || p == "C08" {
 			gens[p] = append(gens[p], forProp(p, e2e.Gen))
 		}
